@@ -19,18 +19,18 @@ from fedjax.core import for_each_client as fec
 
 def program(nan_pad):
   def init(shared, ci):
-    return {'a': shared['w'] * 1.0 + ci['c'], 'n': jnp.int32(0), 'flag': jnp.asarray(True)}
+    return {'a': shared['w'] * 1.0 + ci['c'], 'n': jnp.int32(0), 'flag': jnp.asarray(True), 'isum': jnp.int32(0)}
 
   def step(st, b):
     # on an all-zero padding batch this step produces NaN / Inf
     bad = 1.0 / jnp.sum(jnp.abs(b['x'])) if nan_pad else 0.0
     scale = jnp.where(jnp.sum(jnp.abs(b['x'])) > 0, 0.0, bad) if nan_pad else 0.0
     a = st['a'] * 0.5 + b['x'] + scale * 0 + (jnp.log(jnp.sum(jnp.abs(b['x']))) * 0 if nan_pad else 0)
-    return ({'a': a, 'n': st['n'] + 1, 'flag': jnp.logical_not(st['flag'])},
-            {'norm': jnp.sum(b['x'] * b['x']) + (jnp.log(jnp.sum(jnp.abs(b['x']))) * 0 if nan_pad else 0), 'k': st['n']})
+    return ({'a': a, 'n': st['n'] + 1, 'flag': jnp.logical_not(st['flag']), 'isum': st['isum'] + b['i'] * jnp.where(b['m'], 1, 0)},
+            {'norm': jnp.sum(b['x'] * b['x']) + (jnp.log(jnp.sum(jnp.abs(b['x']))) * 0 if nan_pad else 0), 'k': st['n'], 'i': b['i']})
 
   def final(shared, st):
-    return {'out': st['a'] - shared['w'], 'n': st['n'], 'flag': st['flag']}
+    return {'out': st['a'] - shared['w'], 'n': st['n'], 'flag': st['flag'], 'isum': st['isum']}
   return init, step, final
 
 
@@ -51,7 +51,9 @@ def make_clients(counts, seed):
   rs = np.random.RandomState(seed)
   clients = []
   for i, nb in enumerate(counts):
-    batches = [{'x': jnp.asarray(rs.rand(3).astype(np.float32) + 0.1)} for _ in range(nb)]
+    # integer (beyond float32's 2^24 exact range) and boolean batch leaves next to the float one: dtypes are part of the result
+    batches = [{'x': jnp.asarray(rs.rand(3).astype(np.float32) + 0.1), 'i': jnp.asarray(np.int32(16777217 + 2 * j + i)),
+                'm': jnp.asarray(bool((i + j) % 2 == 0))} for j in range(nb)]
     # client ids are arbitrary hashables: include falsy ones (0, b'')
     cid = {0: 0, 1: b''}.get(i, b'client_%d' % i) if len(counts) >= 3 else b'client_%d' % i
     clients.append((cid, batches, {'c': jnp.asarray(rs.rand(3).astype(np.float32))}))
@@ -66,7 +68,7 @@ def close(a, b):
   la, lb = jax.tree_util.tree_leaves(a), jax.tree_util.tree_leaves(b)
   if len(la) != len(lb):
     return False
-  return all(np.asarray(x).shape == np.asarray(y).shape and np.allclose(np.asarray(x, np.float64), np.asarray(y, np.float64),
+  return all(np.asarray(x).shape == np.asarray(y).shape and np.asarray(x).dtype == np.asarray(y).dtype and np.allclose(np.asarray(x, np.float64), np.asarray(y, np.float64),
                                                                          rtol=1e-5, atol=1e-6, equal_nan=False)
              and np.all(np.isfinite(np.asarray(x, np.float64))) for x, y in zip(la, lb))
 
